@@ -36,7 +36,12 @@ def calibrate():
 
 
 def strategy(tier):
-    return Lm.case_st(tier, ivs=True)
+    from hypothesis import strategies as st
+
+    con = st.fixed_dictionaries({"clob": st.lists(st.integers(0, 10), max_size=3), "flags": st.booleans(),
+                                 "align": st.booleans(), "caller": st.booleans(), "scratch": st.integers(0, 2)})
+    cons = st.one_of(st.none(), st.lists(con, min_size=1, max_size=3))
+    return st.tuples(Lm.case_st(tier, ivs=True), cons).map(lambda t: {**t[0], "cons": t[1]})
 
 
 def in_known_class(fid, spec, failure):
@@ -167,6 +172,8 @@ def worker(rec, tier, shard_seed, n_examples):
             rec.record(me, spec, out)
             continue
         out.classes = c01.classes(case, Lm.Expected(case))
+        if spec.get("cons"):
+            out.classes.append("patches-with-constraints")
         out.nontrivial = _nontrivial(case)
         for variant in ("base", "perm", "junk"):
             _judge(out, "C11." + ("repeat" if variant == "base" else variant), d0, digest_of(spec, variant))
@@ -210,6 +217,8 @@ def evaluate(spec):
         out.excluded = "patch-branch-to-noncode-position"
         return out
     out.nontrivial = _nontrivial(case)
+    if spec.get("cons"):
+        out.classes.append("patches-with-constraints")
     for variant in ("base", "perm", "junk"):
         _judge(out, "C11." + ("repeat" if variant == "base" else variant), d0, digest_of(spec, variant))
     with tempfile.NamedTemporaryFile("w", suffix=".json", delete=False) as f:
